@@ -341,4 +341,42 @@ theorem C19_history_translated (t : Xml) (steps : List S2T.OmmlHist.Step) (x : S
     S2T.Gen.PyOmml.omml_to_latex (some x) = pure (omml S2T.Gen.Omml.tables sub) := by
   rw [S2T.C19.Src.omml_to_latex_eq, hx]
 
+/-! ## The translated `omml_to_latex` itself (end to end)
+
+`Props/C19_Src.lean` proves the `omml_to_latex` re-translated from `omml_to_latex.py` on every run equal to the
+model's `omml` on every ElementTree element; composed with `C19_balanced` / `C19_runs_sublist`, brace balance
+and "every run of the formula reaches the output in order" are statements about the converter **as the source
+has it now**, for every element tree (`abs` = what the converter can see of it). -/
+
+/-- **C19 at the source level (balanced braces).** -/
+theorem C19_src_balanced (x : S2T.Py.Omml.Xml)
+    (hnb : noBracesL (S2T.Py.Omml.abs S2T.Gen.PyOmml.M_NS x).kids = true) :
+    ∃ r, S2T.Gen.PyOmml.omml_to_latex (some x) = Except.ok r ∧ balanced r = true := by
+  refine ⟨_, S2T.C19.Src.omml_to_latex_eq x, ?_⟩
+  exact C19_balanced _ hnb
+
+/-- **C19 at the source level (every run of the formula reaches the output, in order).** -/
+theorem C19_src_runs (x : S2T.Py.Omml.Xml)
+    (hs : shapeOkL S2T.Gen.Omml.tables (S2T.Py.Omml.abs S2T.Gen.PyOmml.M_NS x).kids = true)
+    (hq : quietL S2T.Gen.Omml.tables (S2T.Py.Omml.abs S2T.Gen.PyOmml.M_NS x).kids = true) :
+    ∃ r, S2T.Gen.PyOmml.omml_to_latex (some x) = Except.ok r ∧
+      (nonWs S2T.Gen.Omml.tables (sourceText S2T.Gen.Omml.tables (S2T.Py.Omml.abs S2T.Gen.PyOmml.M_NS x))).Sublist
+        (nonWs S2T.Gen.Omml.tables r) := by
+  refine ⟨_, S2T.C19.Src.omml_to_latex_eq x, ?_⟩
+  exact C19_runs_sublist _ hs hq
+
+/-! ### Non-vacuity: a hand-built ElementTree fraction meets the hypotheses -/
+/-- `<m:oMath><m:f><m:num><m:r><m:t>a</m:t></m:r></m:num><m:den><m:r><m:t>b</m:t></m:r></m:den></m:f></m:oMath>` -/
+def srcFrac : S2T.Py.Omml.Xml :=
+  let ns := S2T.Gen.PyOmml.M_NS
+  let run (s : String) : S2T.Py.Omml.Xml := ⟨ns ++ "r".toList, [], none, none, [⟨ns ++ "t".toList, [], some s.toList, none, []⟩]⟩
+  ⟨ns ++ "oMath".toList, [], none, none,
+    [⟨ns ++ "f".toList, [], none, none,
+      [⟨ns ++ "num".toList, [], none, none, [run "a"]⟩, ⟨ns ++ "den".toList, [], none, none, [run "b"]⟩]⟩]⟩
+example : noBracesL (S2T.Py.Omml.abs S2T.Gen.PyOmml.M_NS srcFrac).kids = true := by decide +kernel
+example : shapeOkL S2T.Gen.Omml.tables (S2T.Py.Omml.abs S2T.Gen.PyOmml.M_NS srcFrac).kids = true
+    ∧ quietL S2T.Gen.Omml.tables (S2T.Py.Omml.abs S2T.Gen.PyOmml.M_NS srcFrac).kids = true := by decide +kernel
+example : S2T.Gen.PyOmml.omml_to_latex (some srcFrac) = pure "\\frac{a}{b}".toList := by
+  rw [S2T.C19.Src.omml_to_latex_eq]; exact congrArg pure (by decide +kernel)
+
 end S2T.C19
